@@ -271,6 +271,13 @@ m("C17-r2w", "C17", "libwallet/src/api_impl/owner.rs", "\t\tstd::cmp::max(w.last
 
 m("C14-r8", "C14", "api/src/owner.rs", "\t\t\tlet _ = w.keychain(keychain_mask)?;\n\t\t}\n\t\tlet updater_inner = self.updater.clone();", "\t\t\tlet _ = w.keychain(keychain_mask);\n\t\t}\n\t\tlet updater_inner = self.updater.clone();", "C14.R8")
 
+m("C19-r5", "C19", "libwallet/src/internal/updater.rs", "\t\t\t\t\t\tt >= v\n\t\t\t\t\t} else {\n\t\t\t\t\t\tfalse\n", "\t\t\t\t\t\tt >= v\n\t\t\t\t\t} else {\n\t\t\t\t\t\ttrue\n", "C19.R5")
+m("C19-r3w", "C19", "libwallet/src/api_impl/owner.rs", "\t\tquery_args,\n\t\tSome(&parent_key_id),\n\t\tfalse,\n\t)?;\n\n\tOk((validated, txs))", "\t\tquery_args,\n\t\tif tx_slate_id.is_some() { None } else { Some(&parent_key_id) },\n\t\tfalse,\n\t)?;\n\n\tOk((validated, txs))", "C19.R3")
+
+m("C12-r10", "C12", "libwallet/src/api_impl/owner.rs", "\t\tif !c.input_ids.is_empty() {\n\t\t\treturn Err(Error::TransactionAlreadyReceived(ret_slate.id.to_string()));\n\t\t}\n", "\t\tif !c.input_ids.is_empty() {\n\t\t\tdebug!(\"context already stored\");\n\t\t}\n", "C12.R10")
+m("C07-r5", "C07", "libwallet/src/internal/selection.rs", "\tlet log_id = batch.next_tx_log_id(&parent_key_id)?;\n\tlet mut t = TxLogEntry::new(parent_key_id.clone(), TxLogEntryType::TxReceived, log_id);", "\tlet log_id = batch.next_tx_log_id(&context.parent_key_id.clone())?;\n\tlet mut t = TxLogEntry::new(parent_key_id.clone(), TxLogEntryType::TxReceived, log_id);", "C07.R5")
+m("C12-r5n", "C12", "impls/src/lifecycle/seed.rs", "\t\twhile Path::new(&backup_seed_file_name).exists() {", "\t\tif Path::new(&backup_seed_file_name).exists() {", "C12.R5")
+
 
 def for_property(prop):
     return [x for x in M if x["property"] == prop]
